@@ -11,15 +11,15 @@ import (
 
 func init() {
 	register("C13", "Decides structural necessary conditions of 'submission retries follow the server's pacing and stop when they should': "+
-		"(R1) every iteration of the retry loop makes exactly one HTTP POST attempt — a call of PostAndParse, or the request itself when the transport is written out in the loop (then the clauses of R5 are decided on the loop and an unparsable 200 body must take the back-off-and-retry path there) —; the status decision table of the retry loop: 200 ⇒ the loop returns the response and body of that attempt with a nil error; 408 ⇒ another attempt without touching the back-off; 429 and 503 ⇒ back-off then another attempt; every other status (each constant the code compares with, and the default) ⇒ immediate RspError{StatusCode, Body, Err}; "+
-		"(R2) the error edge: context.Canceled / DeadlineExceeded ⇒ immediate return of that error, any other error ⇒ backoff.set(nil) and another attempt; on 429/503 the override handed to backoff.set is nil without Retry-After, seconds×time.Second for an integer (also for one beyond int where the code tells ErrRange apart), time.Until(date) when one of the date parsers found accepts the value while the others fail (each parser in turn; a parser tried in a loop over a constant table of layouts counts once per table), nil when nothing parses; the date parsers are handed the header value and accept the IMF-fixdate form; every way round the loop passes waitForBackoff(ctx) and its error ends the loop and is returned; "+
-		"(R3) backoff.set, decided on the state it leaves at every return in each case (comparisons read as signs of linear forms over the clock, the stored instant, the override and the multiplier, however they are spelled — After/Before/Compare/Sub/Until/Since, either operand order): with an override the not-before instant becomes now+override unless the existing one is already later (never shortened, never less than Retry-After), without one it becomes now + 1s·2^(multiplier−1) of the multiplier after its step, the multiplier stepped by one only below 8 (at 8: now + 128 s, the cap), and an instant still in the future is left alone; only set/decreaseMultiplier write the shared state and every client gets a fresh zero backoff; "+
-		"(R4) waitForBackoff sleeps time.Until(until() + jitter) with jitter = rand.Intn(maxJitter in ms) milliseconds ≥ 0 (negative ⇒ 0) in a blocking select that also listens on ctx.Done() and returns ctx.Err() from it; maxJitter = 250 ms; "+
+		"(R1) every iteration of the retry loop makes exactly one HTTP POST attempt — a call of PostAndParse, or the request itself when the transport is written out in the loop (then the clauses of R5 are decided on the loop and an unparsable 200 body must take the back-off-and-retry path there) —; the status decision table of the retry loop: 200 ⇒ the loop returns the response and body of that attempt with a nil error; 408 ⇒ another attempt without added delay: the back-off is not touched, or only by backoff.set(&d) with a constant d ≤ 0 (which R3 decides never moves not-before past max(not-before, now)); 429 and 503 ⇒ back-off then another attempt; every other status (each constant the code compares with, and the default) ⇒ immediate RspError{StatusCode, Body, Err}; "+
+		"(R2) the error edge: an error that IS context.Canceled / DeadlineExceeded (identity) ⇒ immediate return of that error; once ctx.Err() ≠ nil the loop may return ctx.Err() at once instead of retrying; any other error while ctx.Err() = nil — whatever errors.Is or a type test says about it (the per-attempt http.Client.Timeout wraps DeadlineExceeded too) — ⇒ backoff.set(nil) and another attempt; on 429/503 the override handed to backoff.set is nil without Retry-After, seconds×time.Second for an integer (also for one beyond int where the code tells ErrRange apart), time.Until(date) when one of the date parsers found accepts the value while the others fail (each parser in turn; a parser tried in a loop over a constant table of layouts counts once per table), nil when nothing parses; the date parsers are handed the header value and accept the IMF-fixdate form; every way round the loop passes waitForBackoff(ctx) and its error ends the loop and is returned; "+
+		"(R3) backoff.set, decided on the state it leaves at every return in each case (comparisons read as signs of linear forms over the clock, the stored instant, the override and the multiplier, however they are spelled — After/Before/Compare/Sub/Until/Since, either operand order): with an override the not-before instant becomes now+override unless the existing one is already later (never shortened, never less than Retry-After), without one it becomes now + 1s·2^(multiplier−1) of the multiplier after its step, the multiplier stepped by one only below 8 (at 8: now + 128 s, the cap), and an instant still in the future is left alone; where that reading cannot speak (the override is adjusted before it is applied, e.g. floored at the current exponential step; one condition stands for different comparisons on different paths) set is executed symbolically path by path and the clauses themselves are decided for every multiplier 0…8 as implications between linear inequalities: no override ⇒ exactly the states above; with an override not-before' ≥ now+override and ≥ a pending not-before, an override ≤ 0 (the 408 path, Retry-After: 0, a past date) leaves not-before' ≤ max(not-before, now), a positive one not-before' ≤ max(not-before, now+override, now+128 s); only set/decreaseMultiplier write the shared state and every client gets a fresh zero backoff; "+
+		"(R4) waitForBackoff sleeps time.Until(until() + jitter) with jitter = rand.Intn(maxJitter in ms) milliseconds (a negative remaining time ⇒ 0, or the remaining time itself where no branch tests its sign: such a timer fires at once) in a blocking select that also listens on ctx.Done() and returns ctx.Err() from it; a return that ends the wait before the select executes only while the not-before instant is not after the clock, and returns ctx.Err() or nil; maxJitter = 250 ms; "+
 		"(R5) PostAndParse: no nil-error return after any failing step nor when the final request method is not POST; an unparsable 200 body gives RspError with status and body (so the loop's error edge retries it) — for every step that decodes the body, json.Unmarshal itself or a module helper built on it —; the body is decoded for status 200 only and what is decoded ends in the caller's rsp; the nil-error return hands back the response and the body read from it; "+
 		"(R8) every form of Retry-After: the override of the seconds form, evaluated as a piecewise affine function of the integer the parser returned (φ-nodes and reaching stores split by the comparisons that guard them, min/max, + − × << with constants, conversions), never wraps round and is a constant only where x seconds cannot be represented, and then the largest value that can (seconds-fit-duration: time.Duration(seconds)*time.Second fails for Retry-After: 9223372037); a number of seconds beyond the integer type (strconv: ErrRange) is not taken for an unparsable value (seconds-beyond-int); each of the three HTTP-date forms — IMF-fixdate, RFC 850, asctime (RFC 7231 7.1.1.1) — is accepted by one of the parsers whose result becomes time.Until(date): layouts (constants, or every element of a constant table that a loop walks from 0 to len−1 and leaves early only on success) are judged by what time.Parse does with sample dates of each form, net/http.ParseTime accepts all three, time.ParseInLocation only with time.UTC (date-form[imf-fixdate|rfc850|asctime]); "+
 		"(R9) what is returned was decoded from the accepted body only: no JSON decoder — which may fail after it has filled part of its target — writes into memory reached from the caller's rsp (followed through interface boxing, &rsp, reflect.ValueOf/Elem/Indirect and module helpers) unless every failure assigns the target anew before returning; a scratch value is assigned to rsp ((reflect.Value).Set) only after every decode into it succeeded, and is not older than the attempt (decoded-from-accepted-body-only: json.Unmarshal(body, &rsp) on every attempt fails — {\"data\":\"stale\",\"tree_size\":\"oops\"} then {\"tree_size\":11} returns Data:stale); "+
 		"(R7) LogClient.AddChain/AddPreChain submit through PostAndParseWithRetry with the caller's context and surface its error. "+
-		"NOT covered: elapsed wall-clock time, overflow of time.Now().Add(override) inside package time, Retry-After values that are neither delay-seconds nor one of the three HTTP-date forms (e.g. a date with a zone other than GMT is accepted or not as time.Parse decides), clamps or overflow checks written other than by comparisons with constants / min / max (a check by division is 'undecided'), nested values of a pre-filled rsp that a scratch copy shares with it (the copy is shallow), fairness and data-race freedom among concurrent callers (the lock discipline of backoff is the central LOCK rule C13.R6), infinite response sequences (liveness), the behaviour of ctxhttp/net/http and of context implementations, which local (non-transport) errors of PostAndParse are retried.",
+		"NOT covered: elapsed wall-clock time, whether an override also steps the multiplier (in the path form only its effect on not-before is decided), an early end of the wait guarded by anything but a comparison of the not-before instant with the clock (undecided), overflow of time.Now().Add(override) inside package time, Retry-After values that are neither delay-seconds nor one of the three HTTP-date forms (e.g. a date with a zone other than GMT is accepted or not as time.Parse decides), clamps or overflow checks written other than by comparisons with constants / min / max (a check by division is 'undecided'), nested values of a pre-filled rsp that a scratch copy shares with it (the copy is shallow), fairness and data-race freedom among concurrent callers (the lock discipline of backoff is the central LOCK rule C13.R6), infinite response sequences (liveness), the behaviour of ctxhttp/net/http and of context implementations, which local (non-transport) errors of PostAndParse are retried.",
 		runC13)
 }
 
@@ -210,6 +210,8 @@ func c13RetKinds(r *Run, w *c13WaitSite, ret *ssa.Return, reach *Reach) []c13Kin
 			k = "other(" + d0 + ", " + d1 + ", " + de + ")"
 		case w.isWaitErr(r, e):
 			k = "wait-error"
+		case de == c13CtxErr:
+			k = "ctx-error" // the caller's context's own error, read in the loop
 		case att.err != "" && glob(att.err, de):
 			k = "attempt-error"
 		case errKind(e) == "non":
@@ -359,8 +361,11 @@ func c13Loop(r *Run, fn *ssa.Function) {
 			return len(o.kinds) == 1 && o.kinds[0] == "success" && len(o.sets) == 0 && len(o.waits) == 0 && !o.loops,
 				"200 ⇒ return (response, body, nil) at once"
 		case "408":
-			return c13OnlyKinds(o, "wait-error") && len(o.sets) == 0 && len(o.waits) > 0 && o.loops,
-				"408 ⇒ next attempt, back-off state untouched (no set call), only exit is the wait's error"
+			// without added delay: the back-off state is not touched, or only by set(&d) with a constant
+			// d ≤ 0 — which C13.R3 decides never moves not-before past max(not-before, now)
+			noDelay, how := c13NoWaitSets(r, o.sets)
+			return c13OnlyKinds(o, "wait-error") && noDelay && len(o.waits) > 0 && o.loops,
+				"408 ⇒ next attempt without added delay (no set call, or only backoff.set(&d) with a constant d ≤ 0, which never adds delay: set[…override…] / set:no-wait-override-adds-no-delay), only exit is the wait's error" + how
 		case "429", "503":
 			return c13OnlyKinds(o, "wait-error") && len(o.sets) > 0 && len(o.waits) > 0 && o.loops,
 				code + " ⇒ backoff.set, wait, next attempt; only exit is the wait's error"
@@ -404,38 +409,7 @@ func c13Loop(r *Run, fn *ssa.Function) {
 
 	// R2a: the error edge
 	r.Rule("C13.R2")
-	r.ClassTable(fn, "retry:error-edge", header,
-		[]RuleAtom{{Name: "err", Pat: errAtom.Pat, Dom: []string{"non"}},
-			// identity comparison with the context sentinels: errors.Is would also match
-			// per-attempt transport timeouts (http.Client.Timeout wraps DeadlineExceeded)
-			// while the caller's context is alive, and end the retries early
-			{Name: "canceled", Pat: "(*PostAndParse(*)#2 == *g:context.Canceled)"},
-			{Name: "deadline", Pat: "(*PostAndParse(*)#2 == *g:context.DeadlineExceeded)"}},
-		[]string{"context-ended", "other-error"},
-		func(val map[string]string) string {
-			if val["canceled"] == "T" || val["deadline"] == "T" {
-				return "context-ended"
-			}
-			return "other-error"
-		},
-		func(class string, val map[string]string, reach *Reach) string {
-			o := c13Observe(r, w, fn, header, reach, sets, waits)
-			if class == "context-ended" {
-				if len(o.kinds) == 1 && o.kinds[0] == "attempt-error" && len(o.sets) == 0 && len(o.waits) == 0 && !o.loops {
-					return ""
-				}
-				return "a context error must be returned at once; found " + o.String()
-			}
-			if !(c13OnlyKinds(o, "wait-error") && len(o.sets) > 0 && len(o.waits) > 0 && o.loops) {
-				return "another error ⇒ backoff.set(nil), wait, next attempt; found " + o.String()
-			}
-			for _, s := range o.sets {
-				if a := r.D.D(CallArgs(s.(ssa.CallInstruction))[1]); a != "nil" {
-					return "the error edge must call backoff.set(nil), found set(" + a + ")"
-				}
-			}
-			return ""
-		})
+	c13ErrorEdge(r, w, fn, header, errAtom, sets, waits)
 
 	// R2b: the override on 429 / 503
 	c13Overrides(r, fn, header, byCode, errNil, sets, c13Post+"(*)#0", nil)
@@ -879,7 +853,22 @@ func c13Set3(r *Run, fn *ssa.Function) {
 	r.Rule("C13.R3")
 	// decided on what set leaves behind in each case of the property (rules_t6c13.go): the comparisons
 	// are signs of linear forms over now / not-before / override / multiplier, however they are spelled
+	// … and, where that reading cannot speak (one condition text standing for different comparisons on
+	// different paths, an override adjusted before it is applied), on the clauses themselves, path by
+	// path (rules_t8c13.go)
+	mark := len(r.Obls)
 	c13SetFacts(r, fn)
+	failed := false
+	for _, o := range r.Obls[mark:] {
+		failed = failed || !o.OK
+	}
+	if failed {
+		for _, o := range r.Obls[mark:] {
+			delete(r.seen, o.Key)
+		}
+		r.Obls = r.Obls[:mark]
+		c13SetPaths(r, fn)
+	}
 	if c := r.P.LookupConst("jsonclient.maxMultiplier"); c != nil {
 		r.Check("const:maxMultiplier", c.Val().ExactString() == "8", r.P.Pos(c.Pos()), "maxMultiplier = "+c.Val().ExactString()+" (2^(8−1) s = 128 s cap)")
 	}
@@ -958,14 +947,20 @@ func c13WaitRule(r *Run, w *c13WaitSite) {
 		return
 	}
 	until := untils[0]
-	neg, err := r.BindSigma(fn, AtomVal{ordAtomR("time.Until(*)", "0"), "<"})
+	// the sign test of the remaining time the timer is armed with (not of another time.Until)
+	remaining := r.D.D(until.Value())
+	neg, err := r.BindSigma(fn, AtomVal{ordAtomR(remaining, "0"), "<"})
 	if err != nil {
-		r.Fail("wait:clamp", r.FnPos(fn), "undecided: "+err.Error())
+		// no branch looks at the sign of the remaining time: the timer is then armed with the remaining
+		// time itself on every path, and a timer armed with d ≤ 0 fires at once
+		r.Assume("time.NewTimer(d) / time.After(d) with d ≤ 0 fire at once (package time)")
+		got := r.ArgUnder(fn, timer, 0, Sigma{})
+		r.Check("wait:clamp", glob("time.Until(*)", got), r.Where(timer), "no branch tests the sign of the remaining time: the timer is armed with the remaining time itself on every path (a negative one fires at once): timer("+got+")")
 	} else {
 		got := r.ArgUnder(fn, timer, 0, neg)
 		r.Check("wait:clamp", got == "0", r.Where(timer), "remaining time < 0 ⇒ timer("+got+")")
 		for _, v := range []string{"=", ">"} {
-			s, _ := r.BindSigma(fn, AtomVal{ordAtomR("time.Until(*)", "0"), v})
+			s, _ := r.BindSigma(fn, AtomVal{ordAtomR(remaining, "0"), v})
 			got := r.ArgUnder(fn, timer, 0, s)
 			r.Check("wait:duration["+v+"0]", glob("time.Until(*)", got), r.Where(timer), "remaining time "+v+" 0 ⇒ timer("+got+")")
 		}
@@ -979,6 +974,10 @@ func c13WaitRule(r *Run, w *c13WaitSite) {
 		if glob("(1000000 * rand.Intn(*))", r.D.D(CallArgs(add)[1])) {
 			nb = callOfValue(CallArgs(add)[0])
 		}
+	}
+	nbTerm := ""
+	if nb != nil {
+		nbTerm = r.D.D(nb.Value())
 	}
 	r.Check("wait:deadline", nb != nil, r.Where(until), "arg 0 of time.Until = "+deadline+" (expected (time.Time).Add(<not-before instant read from the back-off state>, (1000000 * rand.Intn(*))))")
 	if nb != nil {
@@ -1065,6 +1064,7 @@ func c13WaitRule(r *Run, w *c13WaitSite) {
 		r.Fail("wait:select", r.FnPos(fn), fmt.Sprintf("undecided: %d select statements in %s", nsel, FuncName(fn)))
 		return
 	}
+	c13WaitEarlyReturns(r, w, sel, nbTerm)
 	r.Check("wait:select.blocking", sel.Blocking, r.Where(sel), "the select blocks (no default case)")
 	doneIdx, timerIdx := -1, -1
 	for i, st := range sel.States {
